@@ -79,6 +79,101 @@ ENTRY = {
 }
 
 
+# Function-level spellings of the operations (methods that
+# dd.autoref.Function inherits from dd._abc.Operator)
+OPERATOR = {
+    'C01': ['__and__', '__or__', 'implies', 'equiv', '__invert__',
+            '__eq__', '__ne__', '__le__', '__lt__'],
+    'C03': ['exist', 'forall'],
+    'C04': ['let'],
+    'C05': ['to_expr'],
+    'C10': ['count', 'pick', 'support'],
+    'C18': ['level', 'var', 'low', 'high', 'negated', '__len__'],
+}
+for _pid, _names in OPERATOR.items():
+    ENTRY[_pid] = ENTRY[_pid] + [f'dd._abc.Operator.{n}' for n in _names]
+
+# A property that quantifies over variable orders ("configurations") or
+# over sequences of operations ("histories") depends on the functions that
+# set up an order, and on those that make up a history, whatever else it
+# speaks about: they are added to its entry points.  (Read from
+# properties.jsonl; the file is given and fixed.)
+CONFIGURATION = [
+    'dd.bdd.BDD.__init__', 'dd.bdd.BDD.add_var', 'dd.bdd.BDD.declare',
+    'dd.bdd.BDD.swap', 'dd.bdd.reorder', 'dd.bdd.BDD.var_levels',
+    'dd.bdd.BDD.var_at_level', 'dd.bdd.BDD.level_of_var',
+    'dd.autoref.BDD.__init__', 'dd.autoref.BDD.add_var',
+    'dd.autoref.BDD.declare', 'dd.autoref.BDD.var_levels',
+    'dd.autoref.BDD.reorder', 'dd.autoref.reorder',
+]
+HISTORY = [
+    'dd.bdd.BDD.collect_garbage', 'dd.bdd.BDD.incref', 'dd.bdd.BDD.decref',
+    'dd.bdd.BDD.__copy__', 'dd.bdd.BDD.undeclare_vars',
+    'dd.bdd.BDD.find_or_add', 'dd.autoref.BDD.collect_garbage',
+    'dd.autoref.Function.__init__', 'dd.autoref.Function.__del__',
+    'dd.autoref.Function.__copy__',
+]
+
+
+def _quantifiers():
+    import json
+    import os
+    out = dict()
+    here = os.path.dirname(os.path.dirname(os.path.abspath(__file__)))
+    with open(os.path.join(here, 'properties.jsonl')) as f:
+        for line in f:
+            line = line.strip()
+            if line:
+                d = json.loads(line)
+                out[d['id']] = set(d.get('quantifier', {}).get('over', []))
+    return out
+
+
+for _pid, _over in _quantifiers().items():
+    if _pid not in ENTRY:
+        continue
+    extra = []
+    if _over & {'configurations', 'histories'}:
+        extra += CONFIGURATION
+    if 'histories' in _over:
+        extra += HISTORY
+    ENTRY[_pid] = ENTRY[_pid] + [q for q in extra if q not in ENTRY[_pid]]
+
+
+# properties that quantify over histories ONLY speak about every operation
+ALL_OPERATIONS = {pid for pid, over in _quantifiers().items()
+                  if over == {'histories'}}
+
+
+def has(P, pid, *quals):
+    """Is one of the functions in the scope of the property?"""
+    if pid not in ENTRY:
+        return False
+    funcs = functions_of(P, pid)
+    return any(q in funcs for q in quals)
+
+
+def select(P, pid, table, qual=None):
+    """Instances of a rule for `pid`: those listed for it (its own), plus
+    the instances listed for other properties whose function lies in the
+    scope of `pid`.  -> (own, extra)"""
+    if qual is None:
+        def qual(it):
+            return it if isinstance(it, str) else it[0]
+    own = list(table.get(pid, []))
+    seen = {repr(x) for x in own}
+    extra = []
+    funcs = functions_of(P, pid) if pid in ENTRY else set()
+    for other in sorted(table):
+        for it in table[other]:
+            if repr(it) in seen:
+                continue
+            if qual(it) in funcs:
+                extra.append(it)
+                seen.add(repr(it))
+    return own, extra
+
+
 def functions_of(P, pid):
     """Qualified names reachable from the entry points of `pid`."""
     cache = P.__dict__.setdefault('_scope_cache', dict())
@@ -94,11 +189,26 @@ def functions_of(P, pid):
         raise AnalysisError(
             f'entry point(s) of {pid} not found: {missing}; the scope of '
             'the repository-wide rules cannot be computed')
+    if pid in ALL_OPERATIONS:
+        # the history alphabet: every public operation of the managers
+        for mod, cls in (('dd.bdd', 'BDD'), ('dd.autoref', 'BDD')):
+            for f in P.methods(mod, cls):
+                if not f.name.startswith('_'):
+                    todo.append(f.qualname)
     while todo:
         q = todo.pop()
         if q in seen:
             continue
         seen.add(q)
+        f = P.func(q, required=False)
+        if f is not None:
+            # a decorated function runs inside its decorator's wrapper
+            mod = q.split('.')[0] + '.' + q.split('.')[1]
+            for d in f.decorators:
+                w = f'{mod}.{d}._wrapper'
+                if P.func(w, required=False) is not None and \
+                        w not in seen:
+                    todo.append(w)
         for e in G.out.get(q, []):
             if e.callee and e.callee not in seen:
                 todo.append(e.callee)
